@@ -67,6 +67,11 @@ pub mod cov {
     ];
 }
 
+thread_local! {
+    /// see `ArenaModel::dispatch`
+    pub static HOP_INLINE: std::cell::Cell<bool> = const { std::cell::Cell::new(false) };
+}
+
 pub struct World<const M: usize> {
     pub env: *mut ExecEnv,
     pub arena: usize,
@@ -89,6 +94,8 @@ pub struct World<const M: usize> {
     pub next_err_id: u32,
     /// the pointer being accepted is a field inside a larger reserved slot (alloc_try_with)
     pub skip_min_check: bool,
+    /// run "thread hop" actions on the calling thread instead (reference run of the hand-over differential)
+    pub hop_inline: bool,
 }
 
 impl<const M: usize> World<M> {
@@ -111,6 +118,7 @@ impl<const M: usize> World<M> {
             keys: Vec::with_capacity(10),
             next_err_id: 1,
             skip_min_check: false,
+            hop_inline: HOP_INLINE.with(|c| c.get()),
         }
     }
 
